@@ -12,7 +12,7 @@ ID = 'C07'
 LEVEL = 'model_checking'
 RULE = ('E1 enumeration of LAT=2 decks: regular hexagons (2 pitches x 3 rotations) and irregular ones '
         '(stretched, sheared; opposite sides parallel and equal), prism axis z / x / oblique, six or eight '
-        'planes, every admissible listing (start side, both chiralities, the last two side planes in both '
+        'planes or an RHP/HEX macrobody, every admissible listing (start side, both chiralities, the last two side planes in both '
         'orders, each plane written with either normal orientation), ranges -1:1 x -1:1 (x 0:1), several '
         'asymmetric fill arrays; oracle: hexagon by half-plane clipping (independent of the converter), '
         'a1 = mid(side 1) - mid(side 2), a2 = mid(side 3) - mid(side 4), a3 across the seventh plane, '
@@ -22,6 +22,8 @@ ASSUMPTIONS = [
     'MCNP hexagonal lattice convention: [1,0,0] beyond the 1st listed plane, [0,1,0] beyond the 3rd, '
     '[-1,1,0] beyond the 5th or 6th (the last two side planes may be listed in either order), [0,0,1] beyond the 7th',
     'the 3rd listed plane is adjacent to the 1st (the only listings MCNP accepts)',
+    'a LAT=2 cell bounded by an RHP/HEX macrobody takes the facets in their numbering as the listed planes '
+    '(a1 = 2r, a2 = 2s, a3 = h); for the 9-entry form s is r turned by +60 degrees about h',
 ]
 
 
@@ -203,6 +205,69 @@ def build(ch):
     return d
 
 
+def build_macro(ch):
+    """LAT=2 cell bounded by an RHP / HEX macrobody: the facets play the role of the listed planes
+    (1, 2 = +-r; 3, 4 = +-s; 5, 6 = +-t; 7 = top, 8 = base), so a1 = 2r, a2 = 2s, a3 = h."""
+    from . import c03
+    d = HDeck('c07 hex lattice bounded by a macrobody')
+    mnem = ch.choose('mnemonic', ['rhp', 'hex'])
+    Q = AXES[ch.choose('axis', list(AXES))]
+    phi = math.radians(ch.choose('phi', [0.0, 30.0, 17.0]))
+    ap = ch.choose('apothem', [1.0, 0.8])
+    form = ch.choose('form', ['9', '15', '15cw', '15irregular'])
+    centre2 = np.array([0.3, -0.2])
+    axis = Q @ np.array([0.0, 0.0, 1.0])
+    zlo, zhi = -1.0, 1.5
+    v = Q @ np.array([centre2[0], centre2[1], zlo])
+    h = axis * (zhi - zlo)
+    r = Q @ (ap * np.array([math.cos(phi), math.sin(phi), 0.0]))
+    if form == '9':
+        body = c03.body_rhp(v, h, r)
+        sv = refsem.rotation(axis, 60.0) @ r
+    else:
+        sgn = -1.0 if form == '15cw' else 1.0
+        sv = refsem.rotation(axis, sgn * 60.0) @ r
+        tv = refsem.rotation(axis, sgn * 120.0) @ r
+        if form == '15irregular':
+            # opposite sides stay parallel and equal: t = s - r for the stretched hexagon
+            sv = sv + 0.3 * r
+            tv = sv - r
+        body = c03.body_rhp(v, h, r, sv, tv)
+    d.surfcards[60] = mnem + body.card[3:]
+    d.refsurfs[60] = refsem.RefSurf(body.facets, body.inside)
+    base = [2.0 * r, 2.0 * sv, h]
+    rng = [(-1, 1), (-1, 1), ch.choose('range3', [(0, 0), (0, 1), (-1, 0)])]
+    lat = HCell(20, -60, mat=4, rho='-1.5', u=1, lat=2)
+    lat.base = base
+    lat.ranges = rng
+    nel = int(np.prod([hi - lo + 1 for lo, hi in rng]))
+    pat = ch.choose('pattern', PATTERNS)
+    lat.array = [(pat * 3)[i + (i // 9)] for i in range(nel)]
+    lat.single = False
+    for k, (ax, val) in enumerate([(0, -9.0), (0, 9.0), (1, -9.0), (1, 9.0), (2, -9.0), (2, 9.0)]):
+        e = np.zeros(3); e[ax] = 1.0
+        d.add_surface(k + 1, 'p', list(Q @ e) + [val])
+    d.add_cell(HCell(10, ('*', ('*', ('*', 1, -2), ('*', 3, -4)), ('*', 5, -6)), fill=1))
+    d.add_cell(HCell(19, ('^', 10), imp=1))
+    d.add_cell(lat)
+    d.replica_like = False
+    c3 = Q @ np.array([centre2[0], centre2[1], 0.0])
+    na = Q @ np.array([1.0, 0.2, 0.0]); nb = Q @ np.array([-0.3, 1.0, 0.0])
+    d.add_surface(41, 'p', list(na) + [float(na @ c3) + 0.15])
+    d.add_surface(42, 'p', list(nb) + [float(nb @ c3) - 0.1])
+    d.add_surface(43, 'p', list(axis) + [float(axis @ c3) + 0.4])
+    d.add_surface(44, 'p', list(axis) + [float(axis @ c3) - 0.3])
+    d.add_cell(HCell(31, -41, mat=1, rho='-2.7', u=2))
+    d.add_cell(HCell(32, ('*', 41, -43), mat=2, rho='-7.8', u=2))
+    d.add_cell(HCell(35, ('*', 41, 43), mat=3, rho='-1.0', u=2))
+    d.add_cell(HCell(33, -42, mat=3, rho='-1.0', u=3))
+    d.add_cell(HCell(34, ('*', 42, 44), mat=1, rho='-2.7', u=3))
+    d.add_cell(HCell(36, ('*', 42, -44), mat=2, rho='-7.8', u=3))
+    d.mats = dict(c06.MATS)
+    d.finish()
+    return d
+
+
 def build_single(ch):
     return build(c06.Preset(ch, {'replica': 0}))
 
@@ -215,6 +280,8 @@ def build_replica(ch):
 def scenarios(tier):
     q = tier == 'quick'
     return [Scn('hex', build_single, 3 if q else 4, 4, 'one lattice; all choices costed; deviation-bounded'),
+            Scn('hex-macrobody', build_macro, 2 if q else None, None,
+                'lattice cell bounded by an RHP / HEX macrobody (9 and 15 entries, both senses, stretched)'),
             Scn('hex-replica', build_replica, 1 if q else 2, 2,
                 'two lattice cells bounded by the same surfaces, the second a (LIKE n BUT) replica moved by a TRCL')]
 
